@@ -188,6 +188,8 @@ TRACE_LINES = [
     ("project=ex1 WeatherFolder=historical soilId=160 fcode=109_120 plotNr=10002 Altitude=73 Latitude=52.6728 poligonID=29873 ETpot=3 AutoIrrigation=0", "EN"),
     ("project=ex3 WeatherFolder=historical soilId=075 fcode=109_120 plotNr=10001 Altitude=73 Latitude=52.6732 poligonID=29872 PTF=2", "EN"),
     ("project=myP WeatherFolder=extreme soilId=075 plotNr=10001 Altitude=73 Latitude=52.6732 poligonID=29872 ETpot=2 AutoIrrigation=0", "EN"),
+    # a peat soil (top texture 'H...': run.go takes Denitmo instead of Denitr) under the per-year weather layout, with frost days
+    ("project=MUN WeatherFolder=MUN soilId=011 fcode=NEU plotNr=00006 Altitude=55 Latitude=54.00 poligonID=MUN parameter=./parameter StartYear=2009", "DE", (2010, 2015)),
     ("project=bulk WeatherFolder=extreme soilId=002 fcode=109_120 plotNr=10001 Altitude=73 Latitude=52.6732 poligonID=29872", "EN"),
     ("project=rue WeatherFolder=historical fcode=109_121 plotNr=10002 soilId=001 Altitude=46 Latitude=52.6431 poligonID=30169", "DE"),
     ("project=ex1 WeatherFolder=extreme soilId=041 fcode=109_121 plotNr=10001 Altitude=73 Latitude=52.6680 poligonID=29876 ETpot=1", "EN"),
@@ -196,8 +198,13 @@ TRACE_LINES = [
 
 def trace_lines(ctx, nlines, end_year):
     out = []
-    for i, (ln, fmt) in enumerate(TRACE_LINES[:nlines]):
-        end = ("1231%d" if fmt == "EN" else "3112%d") % end_year
+    for i, entry in enumerate(TRACE_LINES[:nlines]):
+        ln, fmt = entry[0], entry[1]
+        if len(entry) > 2:      # a line with its own period: (end year quick, end year thorough)
+            end_year_i = entry[2][1] if ctx.thorough else entry[2][0]
+        else:
+            end_year_i = end_year
+        end = ("1231%d" if fmt == "EN" else "3112%d") % end_year_i
         out.append("%s EndDate=%s resultfolder=R/t%d" % (ln, end, i))
     return out
 
@@ -206,7 +213,7 @@ def run_trace(ctx, water_every=None):
     """traced runs of shipped projects (scratch copy) -> (rc, cases, oracle lines, stderr)"""
     import os
     ex = prepare_examples(ctx)
-    nl, endy = (9, 1995) if ctx.thorough else (6, 1982)
+    nl, endy = (10, 1995) if ctx.thorough else (7, 1982)
     lf = os.path.join(ctx.work, "trace_lines.txt")
     with open(lf, "w") as f:
         f.write("\n".join(trace_lines(ctx, nl, endy)) + "\n")
